@@ -261,23 +261,23 @@ func patternOf(gs []gdump.G, before map[uint64]bool) poolPattern {
 
 // outcome is what the oracle sees at structural quiescence.
 type outcome struct {
-	Reached          bool   `json:"gate_reached"`
-	ShutdownCalled   bool   `json:"shutdown_called"`
-	ShutdownReturned bool   `json:"shutdown_returned"`
-	WaitReturned     bool   `json:"wait_returned"`
-	Accepted         int    `json:"accepted"`
-	Finished         int    `json:"finished"`
-	Ran              int    `json:"ran"`
-	MaxRuns          int    `json:"max_runs_of_one_task"`
-	Counter          int    `json:"counter"`
-	Queue            int    `json:"queue"`
-	CancelOpt        bool   `json:"cancel_option"`
-	ChainBad         string `json:"chain_inconsistency,omitempty"`
-	StartedAfter     int    `json:"tasks_started_after_wait_return"`
-	PendingAtWaitReturn int `json:"pending_when_wait_returned"` // gated schedules only
-	StartStuck       string `json:"start_never_returned,omitempty"` // "" | before-shutdown-complete | after-shutdown-complete
-	Pattern          string `json:"pattern"`
-	pat              poolPattern
+	Reached             bool   `json:"gate_reached"`
+	ShutdownCalled      bool   `json:"shutdown_called"`
+	ShutdownReturned    bool   `json:"shutdown_returned"`
+	WaitReturned        bool   `json:"wait_returned"`
+	Accepted            int    `json:"accepted"`
+	Finished            int    `json:"finished"`
+	Ran                 int    `json:"ran"`
+	MaxRuns             int    `json:"max_runs_of_one_task"`
+	Counter             int    `json:"counter"`
+	Queue               int    `json:"queue"`
+	CancelOpt           bool   `json:"cancel_option"`
+	ChainBad            string `json:"chain_inconsistency,omitempty"`
+	StartedAfter        int    `json:"tasks_started_after_wait_return"`
+	PendingAtWaitReturn int    `json:"pending_when_wait_returned"`     // gated schedules only
+	StartStuck          string `json:"start_never_returned,omitempty"` // "" | before-shutdown-complete | after-shutdown-complete
+	Pattern             string `json:"pattern"`
+	pat                 poolPattern
 }
 
 type finding struct {
